@@ -25,6 +25,18 @@ use crate::wire::StreamId;
 
 pub use channels::{ChannelEvent, Channels, ChannelsConfig};
 
+/// Verification hook: drive the git request header parser from outside the crate.
+#[cfg(heartwood_verif)]
+pub mod verif {
+    /// Calls the real `pktline::git_request`; returns `(repo, path, extra)`.
+    #[allow(clippy::type_complexity)]
+    pub fn git_request<R: std::io::Read>(
+        reader: &mut R,
+    ) -> std::io::Result<(radicle::identity::RepoId, String, Vec<(String, Option<String>)>)> {
+        super::upload_pack::pktline::git_request(reader).map(|h| (h.repo, h.path, h.extra))
+    }
+}
+
 /// Worker pool configuration.
 pub struct Config {
     /// Number of worker threads.
